@@ -484,6 +484,22 @@ func genBatchCase(prop string, r *Rng) *Case {
 	if (prop == "C17" && r.Chance(1, 5)) || (prop == "C06" && r.Chance(1, 25)) {
 		return genBoundaryBatch(prop, r)
 	}
+	if prop == "C06" && r.Chance(1, 20) {
+		// a batch that follows the previous call: same variant, a different
+		// context of the same length, every entry signed under the PREVIOUS
+		// context - all of them invalid, unless the verifier's view of the
+		// options is stale
+		n := []int{4, 5, 8, 16, 64, 65, 68, 70}[r.Intn(8)]
+		op := &Op{Fn: "VerifyBatch", Seed: r.U64(), Follow: true, Opt: Opt{Ctx: 1 + r.Intn(255)}, Rd: &DevPlan{CSeed: r.U64()}}
+		op.Entries = make([]Entry, n)
+		for i := range op.Entries {
+			op.Entries[i] = Entry{K: "pctx", Key: r.Intn(3), ML: r.Intn(40)}
+		}
+		if r.Chance(1, 3) {
+			op.Entries[r.Intn(n)].K = "ok"
+		}
+		return &Case{Prop: prop, Check: "batch", Op: op}
+	}
 	op, _ := genBatchOp(r, maxN)
 	if prop == "C17" && r.Chance(1, 2) {
 		// bias towards the property's mechanism: all-valid batches of >= 4
